@@ -273,7 +273,7 @@ def tier_plan(tier):
     return [(1, 2, None), (2, 2, None), (3, 1, None), (4, 0, 250), (5, 0, 150)]
 
 
-SHRINKS_PER_TASK = 25
+SHRINKS_PER_TASK = 12
 
 
 def work(task):
@@ -295,22 +295,28 @@ def work(task):
         cases.append((key, nontrivial))
         for gap, qi, o, r, start in bad:
             sseq, spat = tuple(seq[:gap]), tuple(pat[:gap])
+
+            def tagset(sseq, start):
+                tags = set(world.queries[qi].tags)
+                tags.update(rn.qdyn.get(tuple(sseq[:start]), {qi: ()})[qi])
+                for pos in range(start, len(sseq)):
+                    tags.update(rn.edit_tags(sseq, pos))
+                if any(g < gap for g, _ in eerr):
+                    tags.add("edit-raised-in-live-model-only")
+                return tags
+
+            tags = tagset(sseq, start)
             if gap - start != 1:
-                mk = (sseq, spat, qi)
-                if mk in shrunk or len(shrunk) < SHRINKS_PER_TASK:
-                    if mk not in shrunk:
-                        shrunk[mk] = rn.shrink(seq, pat, gap, qi)
-                    sseq, spat = shrunk[mk]
+                # several edits since the query was last seen correct: minimise the history, once per tag set
+                mk = (tuple(sorted(tags)), qi)
+                if mk not in shrunk and len(shrunk) < SHRINKS_PER_TASK:
+                    shrunk[mk] = True
+                    sseq, spat = rn.shrink(seq, pat, gap, qi)
                     start = next((i for i, s in enumerate(spat) if s != N), 0)
                     again = [b for b in rn.live(sseq, spat)[0] if b[1] == qi]
                     if again:
                         o, r = again[0][2], again[0][3]
-            tags = set(world.queries[qi].tags)
-            tags.update(rn.qdyn.get(tuple(sseq[:start]), {qi: ()})[qi])
-            for pos in range(start, len(sseq)):
-                tags.update(rn.edit_tags(sseq, pos))
-            if any(g < gap for g, _ in eerr):
-                tags.add("edit-raised-in-live-model-only")
+                    tags = tagset(sseq, start)
             tags = tuple(sorted(tags))
             ent = fails.setdefault(tags, [0, []])
             ent[0] += 1
